@@ -32,6 +32,40 @@ Streams
                     suites, suites of defs / module code only, continued headers and clauses, blocks at margins,
                     for/else + break, with, typed and several excepts, `loop` after a caught exception, the
                     outermost `loop.parent`, form feed after a header colon, colon in a `% for` comment).
+
+`loop` and callables under a `% for` - what mako does, by direct experiment (every combination below was rendered;
+"ok" = the lexical reading of the property: `loop` read in the callable is the loop around it, a loop of its own has
+that loop as `parent`).  Callable kinds: nested <%def> (called in place), <%call> body, <%ns:def> body (= <%call>),
+anonymous <%block>, named <%block> (only allowed in the template body).  Positions of the `% for`: template body,
+<%def> body, <%call> body, anonymous block.  Content of the callable: N nothing about `loop`, R reads `loop`,
+F a `% for` of its own using `loop`/`loop.parent`, RF both.  "scope mentions" = the scope that holds the `% for`
+uses `loop` itself (outside the callable).
+
+  callable                       for in       scope mentions  N    R                F                 RF
+  <%call>/<%ns:def> body         anywhere     no              ok   NameError (4)    NameError (4)     NameError (4)
+  <%call>/<%ns:def> body         anywhere     yes             ok   ok               ok                UnboundLocal (7)
+  nested <%def>                  def / block  no              ok   NameError (4)    NameError (4)     NameError (4)
+  nested <%def>                  def / block  yes             ok   ok               ok                UnboundLocal (7)
+  <%def> (= top-level def)       template     no              ok   NameError (4)    NameError (4)     NameError (4)
+  <%def> (= top-level def)       template     yes             ok   own scope: "No loop context" / parent None  (by design:
+                                                                   a module-level callable; the reference does the same)
+  <%def> directly in <%call>     that body    no              ok   NameError (4)    NameError (4)     NameError (4)
+  <%def> directly in <%call>     that body    yes             ok   No loop ctx (11) parent None (11b) No loop ctx (11)
+  anonymous <%block>             templ / def  either          ok   ok               ok                UnboundLocal (7)
+  anonymous <%block> in <%call>  that body    either          ok   No loop ctx (11) parent None (11b) No loop ctx (11)
+  <%def>/<%block> in <%call>     OUTSIDE it   no              ok   NameError (4)    NameError (4)     NameError (4)
+  <%def>/<%block> in <%call>     OUTSIDE it   yes             ok   ok               ok                UnboundLocal (7)
+  any callable                   anon. block  (block counts)  ok   ok               ok                UnboundLocal (7)
+  named <%block>                 template     either          ok   own scope, as a top-level def (by design); not generated
+  named <%block>                 def / call   -               CompileException (not allowed there)
+
+  (4) F-C03-4: the `% for` is rewritten because LoopVariable finds `loop` below it, but no scope declares `__M_loop`
+  (7) F-C03-7: the callable is a closure, assigns `loop` (its own rewritten `for`) and reads it
+  (11)/(11b) F-C03-11: a <%def> / anonymous <%block> directly in a <%call> body (under its control lines) is
+      written into `ccall` BESIDE body(), so it is no closure of the body: it has a LoopStack of its own
+Shapes of the classifier (`hazards`): loop-only-in-closure = (4), closure-mixed = (7), loop-in-call-body-def = (11),
+plus loop-only-in-call-expr (F-C03-5), unsized-len (F-C03-6), ret-in-buffering (F-C03-3).  A generated template with
+any of these shapes is not run in the main streams; oracle.quirks runs templates with exactly one of them.
 """
 from __future__ import annotations
 
@@ -457,12 +491,15 @@ def hazards(body):
                 hz.add("ret-in-buffering")
 
     def call_body(b, in_for):
-        """a <%def> directly in a <%call> body (under its control lines) is written into `ccall` beside body(): it
-        is no closure of the body and cannot see the loop of a `% for` of that body"""
+        """a <%def> or anonymous <%block> directly in a <%call> body (under its control lines) is written into
+        `ccall` beside body(): it is no closure of the body - it cannot see the loop of a `% for` of that body, and
+        loops of its own do not have that loop as parent"""
         for n in b:
             k = n[0]
-            if k == "def" and in_for and _mentions_outside_for(n[4]):
-                hz.add("loop-in-call-body-def")
+            if k in ("def", "block") and in_for:
+                cb = G.sub_bodies(n)[0]
+                if _mentions_outside_for(cb) or any(c[0] == "for" and G.detected(c) for c in _callable_level(cb)):
+                    hz.add("loop-in-call-body-def")
             elif k == "for":
                 call_body(n[3], True)
                 if n[4] is not None:
@@ -1041,8 +1078,9 @@ def quirk_trees():
             [["def", 1, [], F(filters=[2]), [["text", "x"], ["py", [["ret"]], None], ["text", "y"]]],
              ["text", "["], ["expr", ["call", 1, []]], ["text", "]"]]],
         "loop-only-in-closure": [
-            [["for", 1, ["list", [["lit", "p"], ["lit", "q"]]],
-              [["def", 1, [], F(), [loop_i]], ["expr", ["call", 1, []]]], None, _o(2)]],
+            [["def", 9, [], F(), [["for", 1, ["list", [["lit", "p"], ["lit", "q"]]],
+                                   [["def", 1, [], F(), [loop_i]], ["expr", ["call", 1, []]]], None, _o(2)]]],
+             ["expr", ["call", 9, []]]],
             [["def", 1, [], F(), [["text", "("], ["expr", ["callerbody"]], ["text", ")"]]],
              ["for", 1, ["list", [["lit", "p"], ["lit", "q"]]], [["call", ["call", 1, []], [loop_i]]], None, _o(2)]]],
         "loop-only-in-call-expr": [
@@ -1059,7 +1097,17 @@ def quirk_trees():
             [["def", 1, [], F(), [["text", "("], ["expr", ["callerbody"]], ["text", ")"]]],
              ["call", ["call", 1, []],
               [["for", 2, ["list", [["lit", "p"], ["lit", "q"]]],
-                [["def", 2, [], F(), [loop_i]], ["expr", ["call", 2, []]], loop_i], None, _o(2)]]]]],
+                [["def", 2, [], F(), [loop_i]], ["expr", ["call", 2, []]], loop_i], None, _o(2)]]]],
+            # an anonymous block there reads the loop
+            [["def", 1, [], F(), [["expr", ["callerbody"]]]],
+             ["call", ["call", 1, []],
+              [["for", 2, ["list", [["lit", "p"]]], [loop_i, ["block", 3, F(), [loop_i]]], None, _o(2)]]]],
+            # ... or has a loop of its own, whose parent ought to be the loop around it
+            [["def", 1, [], F(), [["expr", ["callerbody"]]]],
+             ["call", ["call", 1, []],
+              [["for", 2, ["list", [["lit", "p"]]],
+                [["block", 3, F(), [["for", 4, ["list", [["lit", "q"]]], [["expr", ["loop", "parent_is_none"]]],
+                                     None, _o(2)]]]], None, _o(2)]]]]],
         "unsized-len": [
             [["for", 1, ["gen", [["lit", "p"], ["lit", "q"]]], [["expr", ["loop", "last"]]], None, _o(2)]],
             [["for", 1, ["iter", [["lit", "p"], ["lit", "q"]]], [["expr", ["loop", "reverse_index"]]], None, _o(2)]]],
@@ -1189,7 +1237,10 @@ def run(ctx):
                 if not cfg.effective:       # nothing is mangled: only the shapes that do not involve `loop` matter
                     hz = [h for h in hz if h in ("ret-in-buffering",)]
                 if hz:
-                    ctx.branch("generator:hazard-in-main-stream:" + "+".join(hz))
+                    # a recorded-finding shape slipped through the generator's own restrictions: it belongs to
+                    # oracle.quirks, not here
+                    ctx.branch("generator:hazard-skipped-in-main-stream:" + "+".join(hz))
+                    continue
                 run_template(ctx, body, cfg, "oracle.native", st, pending, skel, lowered, n)
                 n += 1
                 ctx.branch("stream:" + name)
@@ -1211,8 +1262,8 @@ def run(ctx):
                 tries += 1
                 g = G.Gen(ctx.rng, G.Knobs(**dict(dict(budget=12, max_depth=4), **kw)))
                 body = g.template()
-                if name not in hazards(body):
-                    continue
+                if hazards(body) != [name]:
+                    continue            # exactly this shape, alone (the entries match one shape each)
                 shaped += 1
                 site, _, _, _ = judge(body, Cfg(), -1)
                 if site is None:
